@@ -7,7 +7,7 @@
        VAL = (m id cls) | nil | (v n)
        E   = (step now) | (msg id cls) | (res p VAL) | (fail p) | (active) | (local p VAL|-) | (tick now)
      -> (run D..)   one dump D per event:
-        (d (q b) (s b) SEL (mb (id cls)..) (aw (p -|VAL)..) (val -|VAL) (err -|(e Class)|(aw p)) (nt -|t))
+        (d (q b) (s b) SEL (mb (id cls)..) (aw (p -|VAL)..) (val -|VAL) (err -|(e Class)|(aw p)) (nt -|t) (act -|p..))
         SEL = - | (sel (cur c..) (recv -|(r (id cls))) (start -|t) (nsrc n))
         or (panic site) from the first event that panics on
    (spec (srcs S..) (verdicts ..) (mb ..) (aw ..) (start t) (now t))
@@ -153,8 +153,16 @@ let run_case (s : Sexp.t) : string =
     let rec go st = function
       | [] -> ()
       | ev :: tl ->
+        (* the Action the slice returns (only an EStep can return one) *)
+        let act = match ev with
+          | EStep now -> (match step_action srcs now st with
+              | Some ts -> "(act" ^ String.concat "" (List.map (fun p -> " " ^ sn p) ts) ^ ")"
+              | None -> "(act -)")
+          | _ -> "(act -)" in
         (match apply_event fix vf srcs ev st with
-         | Val st' -> Buffer.add_string buf (" " ^ dump_proc st'); go st' tl
+         | Val st' ->
+           let d = dump_proc st' in
+           Buffer.add_string buf (" " ^ String.sub d 0 (String.length d - 1) ^ " " ^ act ^ ")"); go st' tl
          | Err e -> Buffer.add_string buf (" (err " ^ err_name e ^ ")")
          | Panic n -> Buffer.add_string buf (" (panic " ^ sn n ^ ")")) in
     go (initial mb aw) evs;
